@@ -112,7 +112,7 @@ pub fn gen_case(rng: &mut Rng, profile: &str) -> CongCase {
     }
     let (ops, ns, max_names, max_terms, max_unions, depth): (&[&str], usize, usize, usize, usize, usize) = match profile {
         "m4" => (&["f", "g", "h", "k", "q", "c", "d", "u", "app", "pair", "lam"], 4, 4, 4, 4, 1),
-        "binders" => (&["f", "g", "k", "var", "c", "u", "app", "lam", "sum", "let", "bb", "idx", "sb"], 3, 4, 5, 4, 2),
+        "binders" => (&["f", "g", "k", "var", "c", "u", "app", "lam", "sum", "let", "bb", "idx", "sb", "bsl"], 3, 4, 5, 4, 2),
         "small" => (&["f", "g", "c", "u"], 2, 2, 3, 2, 1),
         _ => (SYM_OPS_BASIC, 2 + rng.below(2), 3, 6, 5, 2),
     };
